@@ -1,7 +1,7 @@
 (* C41 — property theorems only.  Each is closed by `exact <lemma>` and followed by Print Assumptions. *)
 From Coq Require Import List NArith ZArith Bool.
 From Verif.Common Require Import Packet Ipt.
-From Coq Require Import Permutation.
+From Coq Require Import Permutation Sorted.
 From Verif.C41 Require Import Model Spec ProofsRule ProofsSet ProofsOracle ProofsCompose.
 Import ListNotations.
 Open Scope N_scope.
@@ -119,9 +119,57 @@ Print Assumptions c41_model_meets_spec.
 
 Theorem c41_model_case_ok : forall ver h nft enabled,
   snd (check_case {| c_ver := ver; c_ops := h; c_outs := run ver init h; c_nft := nft; c_offload := enabled;
-                     c_rules := static_offload_rules nft enabled; c_limits := [] |}) = true.
+                     c_rules := static_offload_rules nft enabled; c_limits := [];
+                     c_prog := progs None (run ver init h) |}) = true.
 Proof. exact model_case_ok. Qed.
 Print Assumptions c41_model_case_ok.
+
+(* ------------------------------------------------------------------ the PROGRAMMED set (deepening round) *)
+(* After any history of endpoint updates followed by CompleteDeferredWork (+ the IP set layer's ApplyUpdates, modelled as
+   "the kernel set is the support of the latest replacement"), for every iteration order of the manager's maps: the
+   programmed exclusion set is exactly the set of current addresses of the endpoints that need per-packet processing -
+   as a duplicate-free ascending list it EQUALS the list computed from the history alone. *)
+Theorem c41_programmed_set_exact : forall ver h st dp,
+  wf_history ver h = true -> exec ver init None (h ++ [Flush]) st dp ->
+  exists ms, dp = Some ms
+    /\ (forall a, In a (support ms) <-> excluded ver h a)
+    /\ support ms = support (excluded_list ver h)
+    /\ StronglySorted N.lt (support ms).
+Proof. exact programmed_set_exact. Qed.
+Print Assumptions c41_programmed_set_exact.
+
+(* Address change spelled out (the shape of seeded/C41/exclusion-ips-reused-slice): an update that gives a needing
+   endpoint other addresses - the same number of them or not - with nothing else happening before CompleteDeferredWork:
+   every new address is programmed and nothing is programmed that no needing endpoint currently has. *)
+Theorem c41_address_change_programmed : forall ver h id w st dp,
+  wf_history ver (h ++ [WepUpdate id (Some w)]) = true -> wep_needs w = true ->
+  exec ver init None ((h ++ [WepUpdate id (Some w)]) ++ [Flush]) st dp ->
+  exists ms, dp = Some ms
+    /\ (forall n, In n (wep_nets ver w) -> In (fst n) (support ms))
+    /\ (forall a, In a (support ms) -> excluded ver (h ++ [WepUpdate id (Some w)]) a).
+Proof. exact address_change_programmed. Qed.
+Print Assumptions c41_address_change_programmed.
+
+(* The programmed-set oracle of Spec.v (evaluated on what the REAL nftables IP set layer left in the fake kernel, in the
+   set the rendered rule names) accepts every run of the model. *)
+Theorem c41_model_meets_spec_programmed : forall ver h, ok_prog ver h (progs None (run ver init h)) = true.
+Proof. exact model_meets_spec_programmed. Qed.
+Print Assumptions c41_model_meets_spec_programmed.
+
+(* Any AddOrReplaceIPSet trace the trace oracle accepts yields programmed sets the programmed-set oracle accepts. *)
+Theorem c41_ok_trace_implies_ok_prog : forall ver h pre dp outs,
+  ok_trace_from ver pre dp h outs = true -> ok_prog_from ver pre h (progs dp outs) = true.
+Proof. exact ok_trace_progs. Qed.
+Print Assumptions c41_ok_trace_implies_ok_prog.
+
+(* Non-vacuity: same-count address change .1 -> .2 of an endpoint already programmed. *)
+Example c41_address_change_example :
+  let h := [WepUpdate 0 (Some (WEP [(172032001, Some 32)] [] 1%nat None)); Flush;
+            WepUpdate 0 (Some (WEP [(172032002, Some 32)] [] 1%nat None)); Flush] in
+  run V4 init h = [Some [172032001]; Some [172032002]]
+  /\ progs None (run V4 init h) = [Some [172032001]; Some [172032002]]
+  /\ ok_prog V4 h [Some [172032001]; Some [172032001]] = false.
+Proof. vm_compute. repeat split; reflexivity. Qed.
 
 (* Non-vacuity: two endpoints share 10.65.0.1; it stays while either needs it; bandwidth-only QoS does not count. *)
 Definition ex_conn : qos := QC 0 0 0 0 0 0 10 0 0 0 0 0 0 0.
